@@ -811,6 +811,11 @@ def c11(rac, units, tier, seed, profile="debug"):
                 "1 / (32 °F to °C)", "1 K / (0 K)", "1 / (1 - 1)", "5 % / (1 - 100%)", "1 m / 0 s", "0 m / 0 m", "1 kg / (1000 g - 1 kg)", "1 / (0 °C to K) * 1", "1 K / (0 °C to °F)", "2 ^ (1 m / 1 m)", "1 / round(0.4)"]
     strings += ["1 m^0", "1 J/N * 1 m", "round(1.234, 2)", "0 ^ -1", "1 / 0", "1e999 * 1e999", "2 ^ 999", "1m^99", "(", ")", "((", "round(", "round(,)", "1 to", "to m", "1 m to °C^2", "10 °C/s to K/s",
                 "1e-999", "1 km^-99 to m^-99", "{speed of light", "speed of light}", "\\", "1 °C * 1 °C", "1 °F^-1 to K^-1", "1 % %", "1%%", "- 1", "1 - - 1", "1e", "1e+", "1.e5.", "..", "1..2"]
+    # builtins on arguments at and beyond the edge of f64 (sin / cos go through f64), with and without units
+    for fn in ("sin", "cos", "round", "floor", "ceil"):
+        for arg in ("0", "1e308", "1e309", "-1e309", "1e999", "-1e999", "1e-999", "10^309", "1 m", "1e999 m", "1e999, 2", "1, 1e999", "0.5, 0 - 400"):
+            strings.append(f"{fn}({arg})")
+            strings.append(f"{fn}({arg}) + 1")
     ans = rac.ask_many_guarded([{"cmd": "query", "q": s} for s in strings])
     slow_family = re.compile(r"\^|\*\*|[0-9.][eE]")      # known finding D28: work grows with the VALUE of an exponent, not with the size of the input
     for s, a in zip(strings, ans):
